@@ -1458,7 +1458,9 @@ class TractList(_TRSTractList):
                 if isinstance(elem, dict):
                     elem = ','.join([f"{k}:{v}" for k, v in elem.items()])
                 elif isinstance(elem, (list, tuple)):
-                    elem = ', '.join(elem)
+                    # Nested lists/tuples (e.g. flag lines) and non-str
+                    # contents (e.g. int lot numbers) are joined as well.
+                    elem = ', '.join(str(e) for e in flatten(elem))
                 scrubbed.append(elem)
             return scrubbed
 
